@@ -304,7 +304,7 @@ func (h *hist) watch(replay bool, idkey string) {
 	}()
 	h.watchers = append(h.watchers, w)
 	if h.kind == "prop2" {
-		time.Sleep(25 * time.Millisecond) // per-watch Atomix subscription: see newHist
+		time.Sleep(50 * time.Millisecond) // per-watch Atomix subscription: see newHist
 	}
 	r := 0
 	if replay {
@@ -621,6 +621,10 @@ func probeWriteDuringReplay(kind string) string {
 		must(a.watch(context.Background(), variant.replay, variant.idkey, vic))
 		if variant.replay {
 			time.Sleep(60 * time.Millisecond) // snapshot taken, replay parked on the silent consumer
+		} else if kind == "prop2" {
+			// the proposal store's Watch is an Atomix map.Events call, which returns once the FIRST partition has
+			// acknowledged; the partition of k1 may lag (substrate, outside /repo): let the subscription settle
+			time.Sleep(150 * time.Millisecond)
 		}
 		rs[1].payload++
 		must(a.update(rs[1]))
